@@ -32,7 +32,7 @@ func init() {
 		Run:          Run,
 		MaxSteps:     200000,
 		QuickRuns:    8000,
-		ThoroughSecs: 600,
+		ThoroughSecs: 400,
 		Rule: "one run = one generated configuration document of one class: invalid (exactly one documented invariant violated, from a catalogue of " +
 			"key lengths, SS2022 NAT timeout below the replay window, MTU below 1280, batch sizes and channel capacity out of range, dangling client/resolver/set/server/group-member " +
 			"references, duplicate names, unknown protocol/network, bad uPSK store, tunnel address problems), boundary-valid, default-spelling variants (omitted / empty / explicit " +
